@@ -23,4 +23,4 @@ def run(res, a):
                        "Lockstep: for further schedules of the same program the harness logs every access to segment->thread_id, the abandoned bit / "
                        "OS list, abandoned_count and the two abandoned-list locks, and the extracted model Model/Abandon.v must take the same transition "
                        "of the same thread with the same values, inv_b evaluated after every step (evaluations also counts these steps)")
-    res.assumptions += ["thread exit through the pthread key destructor is not exercised here (virtual threads call mi_thread_done); the pinned suite covers it"]
+    res.assumptions += ["under the scheduler virtual threads call mi_thread_done; real thread exit through the pthread key destructor is exercised sequentially by harness/t_exitorder.c (every order of exits and frees/adoptions) and by the pinned suite, not under adversarial schedules"]
